@@ -1683,7 +1683,9 @@ static void DecodeCOM_NEG(Word Code) {
     if (!ChkArgCnt(1, 1)) {
         return;
     }
-    DecodeAdr(1, MModeMemReg, &AdrVals);
+    if (!DecodeAdr(1, MModeMemReg, &AdrVals)) {
+        return;
+    }
 
     /* operand size not yet set - then set from (register) op */
 
